@@ -150,6 +150,9 @@ func record(out string, n int, sum *hx.Summary) {
 				size = 16384 + r.Intn(n)
 			}
 		}
+		if size > 65535 { // the property speaks of sizes 0..65535: what Truncate does with larger ones is its own business
+			size = 65535
+		}
 		f := measure(m, size)
 		w.Emit(f)
 		sum.Evaluations++
